@@ -151,6 +151,13 @@ func sizeof(v reflect.Value) int {
 			s = sizeof(v.MapIndex(mapkey))
 			sum += s
 		}
+		// A key that is not equal to itself (NaN) can not be looked up with
+		// MapIndex: the value of such an entry is only reachable by iterating.
+		for it := v.MapRange(); it.Next(); {
+			if !v.MapIndex(it.Key()).IsValid() {
+				sum += sizeof(it.Value())
+			}
+		}
 	case reflect.Slice, reflect.Array:
 		for i, n := 0, v.Len(); i < n; i++ {
 			s := sizeof(v.Index(i))
